@@ -37,20 +37,63 @@ HANDLER = ["none", "finally", "swallow", "reraise", "raise_new", "raise_new_from
            "yield_again", "raise_sai", "raise_si",
            # the type and chaining of what the generator raises matters to the classification in __aexit__
            "raise_new_from_exc", "raise_runtime", "raise_runtime_from_none", "raise_runtime_from_exc",
-           "raise_same_object", "raise_base", "finally_raise_new", "finally_raise_runtime", "finally_return"]
-AFTER = ["stop", "yield_again", "raise"]
+           "raise_same_object", "raise_base", "finally_raise_new", "finally_raise_runtime", "finally_return",
+           # a second yield whose value is None (a bare ``yield``) or falsy
+           "yield_again_none", "yield_again_false"]
+AFTER = ["stop", "yield_again", "raise", "yield_again_none"]
+class RuntimeSub(RuntimeError):
+    pass
+
+
+class StopAsyncSub(StopAsyncIteration):
+    pass
+
+
+class StopSub(StopIteration):
+    pass
+
+
+class CancelLike(BaseException):
+    """What event loops throw to cancel: a BaseException that is not an Exception."""
+
+
 OUTCOME = {"normal": None, "ValueError": ValueError, "BaseException": BaseException, "StopIteration": StopIteration,
            "StopAsyncIteration": StopAsyncIteration, "RuntimeError": RuntimeError, "GeneratorExit": GeneratorExit,
-           "KeyboardInterrupt": KeyboardInterrupt, "New": New}
+           "KeyboardInterrupt": KeyboardInterrupt, "New": New,
+           # subclasses of the exception types the exit protocol treats specially, and pre-chained exceptions
+           "RuntimeSub": RuntimeSub, "StopAsyncSub": StopAsyncSub, "StopSub": StopSub, "CancelLike": CancelLike,
+           "RuntimeError_caused_by_StopIteration": "chained-si", "RuntimeError_caused_by_StopAsyncIteration": "chained-sai",
+           "New_caused_by_RuntimeError": "chained-rt"}
+
+
+def make_exc(outcome):
+    kind = OUTCOME[outcome]
+    if kind is None:
+        return None
+    if isinstance(kind, str):
+        # exceptions that already carry a cause, as if an inner layer had converted them
+        try:
+            try:
+                raise {"chained-si": StopIteration, "chained-sai": StopAsyncIteration, "chained-rt": RuntimeError}[kind]("inner")
+            except BaseException as inner:
+                raise (New if kind == "chained-rt" else RuntimeError)("body") from inner
+        except BaseException as exc:  # noqa: BLE001
+            return exc.with_traceback(None)
+    return kind("body")
 
 
 def cases(tier, seed, shard, nshards):
     idx = 0
     for pre, handler, after, outcome in itertools.product(PRE, HANDLER, AFTER, OUTCOME):
         for susp in (0, 1):
-            idx += 1
-            if idx % nshards == shard:
-                yield {"pre": pre, "handler": handler, "after": after, "outcome": outcome, "susp": susp}
+            for mode in ("with", "reuse"):
+                if mode == "reuse" and (handler.startswith("yield_again") or after.startswith("yield_again")):
+                    # a generator that yields twice is left suspended by asyncstdlib and closed by contextlib (3.12);
+                    # what a further use of such a broken manager does is outside the property
+                    continue
+                idx += 1
+                if idx % nshards == shard:
+                    yield {"pre": pre, "handler": handler, "after": after, "outcome": outcome, "susp": susp, "mode": mode}
 
 
 def make(pre, handler, after, log, susp):
@@ -108,6 +151,12 @@ def make(pre, handler, after, log, susp):
                 elif handler == "yield_again":
                     yield "W"
                     log.append("resumed2")
+                elif handler == "yield_again_none":
+                    yield
+                    log.append("resumed2")
+                elif handler == "yield_again_false":
+                    yield 0
+                    log.append("resumed2")
                 elif handler == "raise_sai":
                     raise StopAsyncIteration("g")
                 elif handler == "raise_si":
@@ -129,6 +178,9 @@ def make(pre, handler, after, log, susp):
         if after == "yield_again":
             yield "X"
             log.append("resumed3")
+        elif after == "yield_again_none":
+            yield
+            log.append("resumed3")
         elif after == "raise":
             raise New("after")
         log.append("end")
@@ -140,21 +192,35 @@ def trial(factory, case):
     CTX.reset()
     log = []
     cm = factory(make(case["pre"], case["handler"], case["after"], log, case["susp"]))
-    exc_type = OUTCOME[case["outcome"]]
-    exc = exc_type("body") if exc_type else None
+    exc = make_exc(case["outcome"])
 
     async def body():
-        async with cm(1, k=2) as v:
-            log.append(("entered", v))
-            if exc is not None:
-                raise exc
-        log.append("after-with")
+        manager = cm(1, k=2)
+        try:
+            async with manager as v:
+                log.append(("entered", v))
+                if exc is not None:
+                    raise exc
+            log.append("after-with")
+        except BaseException as first:  # noqa: BLE001
+            if case.get("mode") != "reuse":
+                raise
+            log.append(("first-use-raised", type(first).__name__, first is exc))
+        if case.get("mode") == "reuse":
+            # a generator based manager is single use: entering the finished manager again must fail the same way
+            async with manager as v:
+                log.append(("entered-again", v))
+            log.append("after-second-with")
 
     try:
         drive(body())
         res = ("ok",)
     except BaseException as e:  # noqa: BLE001
         res = ("raise", type(e).__name__, e is exc)
+    if case.get("mode") == "reuse" and res[0] == "raise" and not res[2]:
+        # HOW a second use fails is not specified (contextlib happens to raise AttributeError from a deleted
+        # attribute): only that it fails without entering the block or restarting the generator is compared
+        res = ("raise", "<second use refused>", False)
     return res, log, list(CTX.foreign)
 
 
@@ -165,8 +231,7 @@ def reference_generatorexit(case):
     genf = make(case["pre"], case["handler"], case["after"], log, case["susp"])
     exc = GeneratorExit("body")
 
-    async def body():
-        gen = genf(1, k=2)
+    async def first():
         try:
             v = await gen.__anext__()
         except StopAsyncIteration:
@@ -175,11 +240,35 @@ def reference_generatorexit(case):
         await gen.aclose()
         raise exc
 
+    gen = genf(1, k=2)
+
+    async def body():
+        if case.get("mode") != "reuse":
+            return await first()
+        try:
+            await first()
+        except BaseException as e:  # noqa: BLE001
+            log.append(("first-use-raised", type(e).__name__, e is exc))
+        try:
+            v = await gen.__anext__()
+        except StopAsyncIteration:
+            raise RuntimeError("generator did not yield to __aenter__") from None
+        log.append(("entered-again", v))
+        try:
+            await gen.__anext__()
+        except StopAsyncIteration:
+            pass
+        else:
+            raise RuntimeError("generator did not stop after __aexit__")
+        log.append("after-second-with")
+
     try:
         drive(body())
         res = ("ok",)
     except BaseException as e:  # noqa: BLE001
         res = ("raise", type(e).__name__, e is exc)
+    if case.get("mode") == "reuse" and res[0] == "raise" and not res[2]:
+        res = ("raise", "<second use refused>", False)
     return res, log, []
 
 
